@@ -310,7 +310,12 @@ struct TypeCheck {
 }
 
 /// All routes for one type.  Returns (evaluations, non-trivial, sample).
-fn check_type<T: Boundary + Clone>(rt: &Runtime<NoCtx>, idx: usize, c: &mut Choices, with_consts: bool) -> Result<(u64, bool, String), (String, String)> {
+fn check_type<T: Boundary + Clone>(rt: &Runtime<NoCtx>, idx: usize, c: &mut Choices, with_consts: bool) -> Result<(u64, bool, String), (String, String)>
+where
+    List<T>: Value,
+    Option<T>: Value,
+    <T as Value>::Transformed: PartialEq,
+{
     let ty = T::roto_ty();
     let v = T::make(c);
     let lit = v.lit();
@@ -326,6 +331,10 @@ fn check_type<T: Boundary + Clone>(rt: &Runtime<NoCtx>, idx: usize, c: &mut Choi
     if with_consts {
         src.push_str(&format!("fn konst() -> {ty} {{\n    K_{idx}\n}}\n"));
     }
+    // the type as a list element: element size and stride must agree on both sides
+    src.push_str(&format!(
+        "fn pack(x: {ty}, y: {ty}) -> List[{ty}] {{\n    [x, y, x]\n}}\nfn second(l: List[{ty}]) -> {ty}? {{\n    l.get(1)\n}}\nfn relist(l: List[{ty}], x: {ty}) -> List[{ty}] {{\n    let m = l + [x];\n    m.push(x);\n    m\n}}\n"
+    ));
     let fail = |sig: &str, msg: String| -> (String, String) { (format!("{sig}:{ty}"), format!("{msg}\nvalue: {}\n--- source ---\n{src}", v.show())) };
     let mut pkg = host::compile(rt, &src).map_err(|e| fail("rejected", e))?;
     let (live0, tz0) = host::live_count();
@@ -356,6 +365,40 @@ fn check_type<T: Boundary + Clone>(rt: &Runtime<NoCtx>, idx: usize, c: &mut Choi
             if f.call(other.dup()) != other.same(&v) {
                 return Err(fail("script-compared", format!("script `==` of {} against the spelling disagrees with Rust", other.show())));
             }
+        }
+    }
+    {
+        let w = T::make(c);
+        let show_list = |l: &List<T>| -> String {
+            let mut parts = Vec::new();
+            for i in 0..l.len().min(8) {
+                parts.push(l.get(i).map(|x| x.show()).unwrap_or_else(|| "<missing>".into()));
+            }
+            format!("[{}]", parts.join(", "))
+        };
+        let elems_are = |l: &List<T>, want: &[&T]| -> bool { l.len() == want.len() && want.iter().enumerate().all(|(i, x)| l.get(i).map(|g| g.same(x)).unwrap_or(false)) };
+        let f = pkg.get_function::<fn(T, T) -> List<T>>("pack").map_err(|e| fail("get_function", format!("{e}")))?;
+        let got = f.call(v.dup(), w.dup());
+        evals += 1;
+        if !elems_are(&got, &[&v, &w, &v]) {
+            return Err(fail("list-built-by-script", format!("`[x, y, x]` with x = {}, y = {} read back in Rust as {}", v.show(), w.show(), show_list(&got))));
+        }
+        drop(got);
+        let l: List<T> = List::new();
+        l.push(v.dup());
+        l.push(w.dup());
+        l.push(v.dup());
+        let f = pkg.get_function::<fn(List<T>) -> Option<T>>("second").map_err(|e| fail("get_function", format!("{e}")))?;
+        let got = f.call(l.clone());
+        evals += 1;
+        if !got.as_ref().map(|g| g.same(&w)).unwrap_or(false) {
+            return Err(fail("list-built-by-rust", format!("`l.get(1)` on the Rust-built list [{}, {}, {}] returned {}", v.show(), w.show(), v.show(), got.map(|g| g.show()).unwrap_or_else(|| "None".into()))));
+        }
+        let f = pkg.get_function::<fn(List<T>, T) -> List<T>>("relist").map_err(|e| fail("get_function", format!("{e}")))?;
+        let got = f.call(l.clone(), w.dup());
+        evals += 1;
+        if !elems_are(&got, &[&v, &w, &v, &w, &w]) || !elems_are(&l, &[&v, &w, &v]) {
+            return Err(fail("list-extended-by-script", format!("`l + [x]` then push(x) gave {} (argument list afterwards {})", show_list(&got), show_list(&l))));
         }
     }
     SLOT.with(|s| *s.borrow_mut() = None);
@@ -422,6 +465,8 @@ catalogue!(
     Option<Option<u8>>, Option<Option<RotoString>>, Option<List<u32>>, List<Option<u32>>, List<List<u8>>, List<List<RotoString>>,
     Option<Result<u8, u16>>, Result<Option<u8>, List<i64>>, Verdict<List<RotoString>, Option<Prefix>>, List<Result<Val<Tr>, ()>>,
     List<Verdict<u16, RotoString>>, Option<Verdict<Option<i8>, List<bool>>>, Result<Result<u8, u32>, Result<u64, ()>>,
+    Result<IpAddr, u64>, Verdict<Prefix, u32>, Result<Prefix, f64>, Option<Result<IpAddr, u16>>, Verdict<u64, IpAddr>, Result<char, Option<char>>,
+    List<Option<char>>, List<Result<IpAddr, u64>>,
 );
 
 // ---------------------------------------------------------------------------
@@ -601,7 +646,7 @@ impl Prop for C05P {
         "C05"
     }
     fn rule(&self) -> String {
-        "a macro-built catalogue of ~70 boundary types (20 leaves incl. registered clone/copy types, Option/List/Result/Verdict nestings to depth 3, payloads of 0..32 bytes) x generated edge and random values x routes: Rust->script->Rust identity, Rust->script->registered function->script->Rust, through a local copy, script constructs the value from generated literal text, script compares an incoming value with literal text, registered constants, a 7-argument position sweep over mixed classes (register vs stack), context structs with permuted field orders; oracle: structural equality computed by the harness (NaN tolerant, lists by content), Tr balance. Non-trivial: value is not the type's default and the type is nested or not a plain 8-byte scalar; distinct by (type, value)".into()
+        "a macro-built catalogue of ~80 boundary types (20 leaves incl. registered clone/copy types, Option/List/Result/Verdict nestings to depth 3, payloads of 0..32 bytes) x generated edge and random values x routes: Rust->script->Rust identity, Rust->script->registered function->script->Rust, through a local copy, script constructs the value from generated literal text, script compares an incoming value with literal text, registered constants, as elements of a list built by the script and read in Rust, of a list built in Rust and read by the script, and of a Rust-built list extended by the script, a 7-argument position sweep over mixed classes (register vs stack), context structs with permuted field orders; oracle: structural equality computed by the harness (NaN tolerant, lists by content), Tr balance. Non-trivial: value is not the type's default and the type is nested or not a plain 8-byte scalar; distinct by (type, value)".into()
     }
     fn assumptions(&self) -> Vec<String> {
         vec![
